@@ -121,6 +121,37 @@ func (f *Frame) exec(ins ssa.Instruction, st *State) bool {
 
 func (c *Ctx) storeObjZero(st *State, r string, t types.Type) {
 	c.storeObj(st, r, t, c.zero(t))
+	c.ghostInit(st, r, t)
+}
+
+// ghostInit sets the ghost state of freshly allocated standard-library
+// objects (part of the trusted stdlib model): a new bytes.Buffer is empty.
+func (c *Ctx) ghostInit(st *State, r string, t types.Type) {
+	if s, ok := t.Underlying().(*types.Struct); ok {
+		if n, ok := t.(*types.Named); ok && n.Obj().Pkg() != nil && n.Obj().Pkg().Path() == "bytes" && n.Obj().Name() == "Buffer" {
+			mi := "Int"
+			zero := "0"
+			if c.Mode == ModeBV {
+				mi = "(_ BitVec 64)"
+				zero = "(_ bv0 64)"
+			}
+			set := func(name, srt, val string) {
+				h := c.ghostHeap(name, srt)
+				c.heapSet(st, h, "(store "+c.heapGet(st, h, c.heapSort[h])+" "+r+" "+val+")")
+			}
+			set("buflen", mi, zero)
+			set("accepted", mi, zero)
+			set("failed", "Bool", "false")
+			c.declFun("uf$emptyBytes", nil, "Bytes")
+			set("content", "Bytes", "uf$emptyBytes")
+			return
+		}
+		for i := 0; i < s.NumFields(); i++ {
+			if isStruct(s.Field(i).Type()) {
+				c.ghostInit(st, c.subRef(t, i, r), s.Field(i).Type())
+			}
+		}
+	}
 }
 
 func (f *Frame) doPanic(x *ssa.Panic, st *State) {
@@ -805,6 +836,11 @@ func (f *Frame) convert(v Val, to types.Type, st *State, pos token.Pos) Val {
 		c.declFun("str2arr", []string{"Str"}, "(Array Int Int)")
 		c.heapSet(st, h, "(store "+c.heapGet(st, h, srt)+" "+r+" (str2arr "+v.T+"))")
 		c.usedUF["str2arr"] = true
+		// the bytes of the new slice are the bytes of the string
+		c.declMkbytes()
+		c.declFun("strbytes", []string{"Str"}, "Bytes")
+		c.assert("(= (mkbytes (str2arr " + v.T + ") 0 (slen " + v.T + ")) (strbytes " + v.T + "))")
+		c.assume(f.curGuard, fmt.Sprintf("(forall ((i!s Int)) (! (= (select (str2arr %s) i!s) (sat %s i!s)) :pattern ((select (str2arr %s) i!s))))", v.T, v.T, v.T))
 		return Val{T: c.mkSlice(r, "0", "(slen "+v.T+")", "(slen "+v.T+")"), Typ: to}
 	case fromSlice && tb != nil && tb.Info()&types.IsString != 0:
 		if c.Mode == ModeBV {
@@ -815,8 +851,13 @@ func (f *Frame) convert(v Val, to types.Type, st *State, pos token.Pos) Val {
 		h, srt := c.memHeap(elem)
 		c.declFun("arr2str", []string{"(Array Int Int)", "Int", "Int"}, "Str")
 		c.usedUF["arr2str"] = true
-		t := c.name("str", "(arr2str (select "+c.heapGet(st, h, srt)+" (sl.base "+v.T+")) (sl.off "+v.T+") (sl.len "+v.T+"))", "Str")
+		arrT := "(select " + c.heapGet(st, h, srt) + " (sl.base " + v.T + "))"
+		t := c.name("str", "(arr2str "+arrT+" (sl.off "+v.T+") (sl.len "+v.T+"))", "Str")
 		c.assume(f.curGuard, "(= (slen "+t+") (sl.len "+v.T+"))")
+		c.declMkbytes()
+		c.declFun("strbytes", []string{"Str"}, "Bytes")
+		c.assert("(= (strbytes " + t + ") (mkbytes " + arrT + " (sl.off " + v.T + ") (sl.len " + v.T + ")))")
+		c.assume(f.curGuard, fmt.Sprintf("(forall ((i!s Int)) (! (=> (and (<= 0 i!s) (< i!s (sl.len %s))) (= (sat %s i!s) (select %s (+ (sl.off %s) i!s)))) :pattern ((sat %s i!s))))", v.T, t, arrT, v.T, t))
 		return Val{T: t, Typ: to}
 	case fok && tb != nil && tb.Info()&types.IsString != 0:
 		c.declFun("rune2str", []string{"Int"}, "Str")
